@@ -101,8 +101,17 @@ func (k *c14kv) Set(key, value string) error    { c14jit(); return k.KeyValue.Se
 func (k *c14kv) Delete(key string) error        { c14jit(); return k.KeyValue.Delete(key) }
 func (k *c14kv) CommitBatch(b sorted.BatchMutation) error {
 	c14jit()
+	if g := c14commitGate.Load(); g != nil {
+		g.arrived <- struct{}{}
+		<-g.release
+	}
 	return k.KeyValue.CommitBatch(b)
 }
+
+// a scenario can hold the next CommitBatch of any verifkv14 store between its arrival and its release
+type c14gate struct{ arrived, release chan struct{} }
+
+var c14commitGate atomic.Pointer[c14gate]
 
 // ---- histories and the judge (the same search as coq/Model/C14.v, with memoisation) ----
 type c14call struct {
@@ -479,7 +488,10 @@ func c14Store(c *ctx, dir string) {
 				nb, use, nclients = 1, blobs[2:], 12
 			case 2:
 				nb, use, nclients = 2, blobs[1:], 12
+			case 3, 4: // uploads against removals of one blob (and a few stats): the two-step writers of layered stores interleave
+				nb, use, nclients = 1, blobs[3:], 12
 			}
+			duel := p == 3 || p == 4
 			per := 3 + c.rng.Intn(4)
 			if nclients*per > 70 {
 				per = 70 / nclients
@@ -490,6 +502,9 @@ func c14Store(c *ctx, dir string) {
 				for i := 0; i < per; i++ {
 					b := c.rng.Intn(nb)
 					r := c.rng.Intn(20)
+					if duel {
+						r = []int{0, 0, 0, 19, 19, 10}[c.rng.Intn(6)]
+					}
 					var k string
 					switch {
 					case r < 6:
@@ -880,6 +895,100 @@ func c14IndexDeps(c *ctx) {
 	}
 }
 
+// ---- overlay: a removal is two steps (upper layer, then the deleted index). A removal is held between the two; a stat
+// sees the blob gone; an upload of the blob is started; the removal is let go; the upload is awaited. The upload began
+// after the removal had taken effect, so the blob must be there afterwards. ----
+func c14OverlayWriters(c *ctx, dir string) {
+	for round := 0; round < c.n(2, 6); round++ {
+		b := newBuilder(filepath.Join(dir, fmt.Sprintf("ovw%d", round)))
+		b.wrap = func(n *cfgNode, s blobserver.Storage) blobserver.Storage { return &c14store{s: s} }
+		b.kv = func(kind, dd, n string) map[string]any {
+			return map[string]any{"type": "verifkv14", "inner": kvConf(kind, dd, n)}
+		}
+		root := &cfgNode{Kind: "overlay", HasDel: true, Detail: kvKinds[round%len(kvKinds)], Kids: []*cfgNode{{Kind: "leaf", Leaf: "memory", readOnly: true}, {Kind: "leaf", Leaf: "memory"}}}
+		if err := b.build(root); err != nil {
+			c.rep.Notes = append(c.rep.Notes, "build overlay: "+err.Error())
+			return
+		}
+		sto := root.sto
+		data := []byte(fmt.Sprintf("overlay writers %d %d", round, c.seed))
+		br := blob.RefFromBytes(data)
+		inLower := round%2 == 1
+		ctxb := context.Background()
+		if inLower {
+			if _, err := blobserver.Receive(ctxb, root.Kids[0].sto, br, bytes.NewReader(data)); err != nil {
+				c.rep.Notes = append(c.rep.Notes, "overlay preload: "+err.Error())
+			}
+		}
+		where := fmt.Sprintf("overlay[memory memory] (deleted index: %s), the blob %s the lower layer; a removal held before its deleted-index write", root.Detail, map[bool]string{true: "also in", false: "not in"}[inLower])
+		c14clock.Store(0)
+		var calls []c14call
+		var mu sync.Mutex
+		note := func(k c14call) { mu.Lock(); calls = append(calls, k); mu.Unlock() }
+		stat := func(who string) {
+			inv := c14tick()
+			sbs, err := statAll(sto, []blob.Ref{br})
+			ret := c14tick()
+			if err != nil {
+				c.violation(-1, "c14-call-fails:overlay:stat", where+": stat: "+err.Error(), nil)
+				return
+			}
+			note(c14call{inv, ret, 'r', len(sbs) > 0, fmt.Sprintf("%s: stat -> present=%v", who, len(sbs) > 0)})
+		}
+		recv := func(who string) {
+			inv := c14tick()
+			_, err := blobserver.Receive(ctxb, sto, br, bytes.NewReader(data))
+			ret := c14tick()
+			if err != nil {
+				c.violation(-1, "c14-call-fails:overlay:receive", where+": receive: "+err.Error(), nil)
+				return
+			}
+			note(c14call{inv, ret, 'R', true, who + ": receive"})
+		}
+		finished, pnc := withTimeout(30*time.Second, func() {
+			recv("client 0")
+			stat("client 0")
+			g := &c14gate{arrived: make(chan struct{}, 4), release: make(chan struct{})}
+			c14commitGate.Store(g)
+			removed := make(chan struct{})
+			go func() {
+				defer close(removed)
+				inv := c14tick()
+				err := sto.RemoveBlobs(ctxb, []blob.Ref{br})
+				ret := c14tick()
+				if err != nil {
+					c.violation(-1, "c14-call-fails:overlay:remove", where+": remove: "+err.Error(), nil)
+					return
+				}
+				note(c14call{inv, ret, 'X', true, "client 1: remove"})
+			}()
+			<-g.arrived // the upper layer has let the blob go; the deleted index is not written yet
+			c14commitGate.Store(nil)
+			if !inLower {
+				stat("client 2") // gone already (when the lower layer has it, it still shows through: not observed)
+			}
+			uploaded := make(chan struct{})
+			go func() { defer close(uploaded); recv("client 2") }()
+			select { // the upload either completes inside the removal's window or waits for the removal
+			case <-uploaded:
+			case <-time.After(150 * time.Millisecond):
+			}
+			close(g.release)
+			<-removed
+			<-uploaded
+			stat("afterwards")
+		})
+		c14commitGate.Store(nil)
+		if !finished || pnc != nil {
+			c.violation(-1, "c14-hang:overlay", fmt.Sprintf("%s: finished=%v panic=%v", where, finished, pnc), nil)
+			continue
+		}
+		c.count("backends", "overlay (held removal)")
+		c.c14Judge(where, 1, false, calls, nil)
+		root.closeAll()
+	}
+}
+
 // ---- a blobpacked store that really packs: one RemoveBlobs call names many packed blobs (the store looks their rows up
 // concurrently inside that call) while other clients read; afterwards none of them may be left ----
 func c14Packed(c *ctx, dir string) {
@@ -970,6 +1079,7 @@ func runC14(c *ctx) {
 	defer os.RemoveAll(dir)
 	_ = rand.Int
 	c14Store(c, dir)
+	c14OverlayWriters(c, dir)
 	c14Packed(c, dir)
 	c14Index(c, dir)
 	c14IndexDeps(c)
